@@ -722,7 +722,7 @@ pub fn walker_steps<S: Src, const START: u8, const PRE: u8, const KG: u8, const 
             k += 1;
         }
         vcover!("walked to the end and back", cur == 0 && n >= 1);
-        vcover!("jumped to the end, then stepped back twice", cur + 2 == n && n >= 3);
+        vcover!("stepped back from the end", cur + 1 == n && n >= 2);
     }
     vassert!("walking leaves the chain untouched", ch == before && same_board(ch.last(), md.cur()) && ch.len() == n);
     core::mem::forget(before);
